@@ -1,4 +1,4 @@
-import J5V.Print.ReparseTheorem
+import J5V.Print.ReparseBridge
 /-!
 # `parseFile (printText gen t) = some (rdFile t)` for simple files (core only)
 -/
@@ -16,6 +16,13 @@ def importCmds (t : FileD) : List Cmd :=
 def restCmds (t : FileD) : List Cmd :=
   [Cmd.line syntaxLine, Cmd.line "", Cmd.line (packageLine t), Cmd.gap] ++
     (importCmds t ++ ([Cmd.gap] ++ elemsCmds 0 t.items true 0 0))
+
+/-- … before the elements -/
+def hdCmds (t : FileD) : List Cmd :=
+  [Cmd.line syntaxLine, Cmd.line "", Cmd.line (packageLine t), Cmd.gap] ++ (importCmds t ++ [Cmd.gap])
+
+theorem restCmds_eq (t : FileD) : restCmds t = hdCmds t ++ elemsCmds 0 t.items true 0 0 := by
+  simp [restCmds, hdCmds, List.append_assoc]
 
 theorem fileCmds_simple (gen : String) (t : FileD) (h : SimpleFile gen t) :
     fileCmds gen t = [Cmd.line ("// " ++ gen), Cmd.line ""] ++ restCmds t := by
@@ -49,14 +56,29 @@ theorem exec_importCmds (t : FileD) :
     rw [exec_append, exec_importLines]
     simp [hne', exec]
 
-theorem toksOf_restCmds (t : FileD) :
-    toksOf (restCmds t) false 2 =
-      lineToks syntaxLine 2 ++ (lineToks (packageLine t) 4 ++
-        (lexLines ((sortImports t.imports).map importLine) 6 ++
-          kT 0 t.items true 0 0 true (itemsStart t))) := by
-  unfold restCmds
+theorem exec_hdCmds (t : FileD) :
+    (exec (hdCmds t) false).2 = true ∧ 2 + nLines (hdCmds t) false = itemsStart t := by
+  unfold hdCmds
   have hlen : (sortImports t.imports).length = t.imports.length := (sortImports_perm t.imports).length_eq
-  rw [toksOf_append, toksOf_append, toksOf_append]
+  have h2 : exec [Cmd.line syntaxLine, Cmd.line "", Cmd.line (packageLine t), Cmd.gap] false =
+      ([syntaxLine, "", packageLine t], true) := by simp [exec]
+  constructor
+  · rw [exec_append_snd, h2, exec_append_snd]
+    rfl
+  · unfold nLines itemsStart
+    rw [exec_append, h2, exec_append, exec_importCmds]
+    by_cases hempty : t.imports.isEmpty = true
+    · simp [hempty, exec]
+    · have hne : t.imports.isEmpty = false := by simpa using hempty
+      simp [hne, exec, hlen]
+      omega
+
+theorem toksOf_hdCmds (t : FileD) :
+    toksOf (hdCmds t) false 2 =
+      lineToks syntaxLine 2 ++ (lineToks (packageLine t) 4 ++ lexLines ((sortImports t.imports).map importLine) 6) := by
+  unfold hdCmds
+  have hlen : (sortImports t.imports).length = t.imports.length := (sortImports_perm t.imports).length_eq
+  rw [toksOf_append, toksOf_append]
   have h1 : toksOf [Cmd.line syntaxLine, Cmd.line "", Cmd.line (packageLine t), Cmd.gap] false 2 =
       lineToks syntaxLine 2 ++ lineToks (packageLine t) 4 := by
     simp [toksOf, exec, lexLines, lineToks_blank]
@@ -64,19 +86,16 @@ theorem toksOf_restCmds (t : FileD) :
       ([syntaxLine, "", packageLine t], true) := by simp [exec]
   have h3 : nLines [Cmd.line syntaxLine, Cmd.line "", Cmd.line (packageLine t), Cmd.gap] false = 3 := by
     simp [nLines, exec]
-  rw [h1, h2, h3, exec_importCmds]
-  simp only [toksOf_gap, List.nil_append, exec, List.append_assoc]
-  unfold itemsStart
+  rw [h1, h2, h3]
+  simp only [toksOf_gap, List.append_nil, List.append_assoc]
+  congr 2
   by_cases hempty : t.imports.isEmpty = true
   · have hnil : t.imports = [] := by simpa using hempty
     have hs : sortImports t.imports = [] := by rw [hnil]; rfl
-    simp [toksOf, nLines, exec_importCmds, hempty, hs, lexLines, exec]
+    simp [toksOf, exec_importCmds, hempty, hs, lexLines]
   · have hne : t.imports.isEmpty = false := by simpa using hempty
-    simp only [toksOf, nLines, exec_importCmds, hne, Bool.false_eq_true, if_false, lexLines, lineToks_blank,
-      List.nil_append, List.length_cons, List.length_map, hlen]
-    have e1 : (exec [Cmd.gap] true).1.length = 0 := rfl
-    have e2 : 2 + 3 + (t.imports.length + 1) + 0 = 6 + t.imports.length := by omega
-    rw [e1, e2]
+    simp only [toksOf, exec_importCmds, hne, Bool.false_eq_true, if_false, lexLines, lineToks_blank,
+      List.nil_append]
 
 /-- every line `restCmds` writes satisfies `P` if the empty line and the texts of its commands do -/
 theorem restCmds_lines (t : FileD) (P : String → Prop) (h0 : P "") (hs : P syntaxLine) (hp : P (packageLine t))
@@ -113,9 +132,6 @@ theorem lexL_syntaxLine (l : Nat) :
     lexL_str "proto3".toList [';'] (by intro c hc; revert c; decide), lexL_sym ';' (by decide), lexL_nil]
   have : String.ofList ('"' :: "proto3".toList ++ ['"']) = "\"proto3\"" := by decide
   rw [this]
-
-theorem tokLine_of_noSlash (s : String) (h : NoCh '/' s.toList) : TokLine s :=
-  fun L r hr => lexL_tokens _ s.toList rfl h L r hr
 
 theorem rawLines_tokens : ∀ (ls : List String) (L : Nat), (∀ s ∈ ls, TokLine s) →
     ∀ r ∈ rawLines ls L, ∃ t ln, r = Raw.tok t ln
@@ -191,31 +207,46 @@ theorem noCh_packageLine {x : Char} (hx : Safe x) (hp : NoCh x "package ".toList
   simp only [String.toList_append]
   exact NoCh.append hx (NoCh.append hx hp (noCh_tyStr hx false first rest hf hr)) (noCh_lit hx ";" (by simp))
 
-theorem lex_text (gen : String) (t : FileD) (h : SimpleFile gen t) :
-    ∃ (cm0 : Cm) (N : Nat), lex (String.join ((run (fileCmds gen t) false).map (· ++ "\n"))) =
-      ⟨.ident "syntax", 2, cm0⟩ :: ((toksOf (restCmds t) false 2).drop 1 ++ [T .eof N]) := by
+/-- the header lines hold tokens only -/
+theorem hdCmds_tok (gen : String) (t : FileD) (h : SimpleFile gen t) : TokCmds (hdCmds t) := by
   have hpk : ∀ x : Char, Safe x → NoCh x "package ".toList → NoCh x (packageLine t).toList :=
     fun x hx hp => noCh_packageLine hx hp t gen h
+  intro c hc
+  unfold hdCmds importCmds at hc
+  simp only [List.mem_append, List.mem_cons, List.mem_singleton, List.not_mem_nil, or_false] at hc
+  rcases hc with (rfl | rfl | rfl | rfl) | hc | rfl
+  · exact ⟨tokLine_of_noSlash _ (by intro c hc; revert c; decide), noNL_of_all _ (by decide)⟩
+  · exact ⟨tokLine_blank, noNL_of_all "" (by decide)⟩
+  · exact ⟨tokLine_of_noSlash _ (hpk '/' safe_slash (by intro c hc; revert c; decide)),
+      hpk '\n' safe_nl (noNL_of_all "package " (by decide))⟩
+  · trivial
+  · split at hc
+    · simp at hc
+    · simp only [List.mem_append, List.mem_map, List.mem_singleton] at hc
+      rcases hc with ⟨d, hd, rfl⟩ | rfl
+      · obtain ⟨hb, hm⟩ := h.imports d (sortImports_mem t d hd)
+        exact ⟨tokLine_importLine d hb hm, noNL_importLine d hb hm⟩
+      · trivial
+  · trivial
+
+theorem lex_text (gen : String) (t : FileD) (h : SimpleFile gen t) :
+    ∃ (cm0 : Cm) (N : Nat), lex (String.join ((run (fileCmds gen t) false).map (· ++ "\n"))) =
+      ⟨.ident "syntax", 2, cm0⟩ :: ((toksOf (hdCmds t) false 2).drop 1 ++
+        (kT 0 t.items true 0 0 true (itemsStart t) ++ [T .eof N])) := by
+  have hplain := SimpleTops.plain _ h.items
+  have hownl := SimpleTops.own _ h.items
+  have htokH := hdCmds_tok gen t h
   -- no line holds a line break
   have hnl1 : ∀ s ∈ (exec (restCmds t) false).1, NoNL s.toList := by
-    apply restCmds_lines t (fun s => NoNL s.toList) (noNL_of_all "" (by decide)) (noNL_of_all _ (by decide))
-      (hpk '\n' safe_nl (noNL_of_all "package " (by decide)))
-    · intro d hd
-      obtain ⟨hb, hm⟩ := h.imports d (sortImports_mem t d hd)
-      exact noNL_importLine d hb hm
-    · exact cmds_P_of_noCh (x := '\n') _ (fun s hs => hs.elim id (fun h2 => absurd h2.1 (by decide))) _
-        (simpleTops_noCh safe_nl t.items true 0 0 h.items)
-  -- every line after the first holds tokens only
-  have htok1 : ∀ s ∈ (exec (restCmds t) false).1, TokLine s := by
-    apply restCmds_lines t TokLine
-    · exact tokLine_of_noSlash "" (by intro c hc; simp at hc)
-    · exact tokLine_of_noSlash _ (by intro c hc; revert c; decide)
-    · exact tokLine_of_noSlash _ (hpk '/' safe_slash (by intro c hc; revert c; decide))
-    · intro d hd
-      obtain ⟨hb, hm⟩ := h.imports d (sortImports_mem t d hd)
-      exact tokLine_importLine d hb hm
-    · exact cmds_P_of_noCh (x := '/') _ (fun s hs => hs.elim (tokLine_of_noSlash s) (fun h2 => h2.2)) _
-        (simpleTops_noCh safe_slash t.items true 0 0 h.items)
+    rw [restCmds_eq]
+    apply exec_lines _ _ (fun s => NoNL s.toList) (noNL_of_all "" (by decide))
+    have := CmdsNoNL.append htokH.noNL (elems_noNL t.items hplain hownl 0 true 0 0)
+    intro c hc
+    have h1 := this c hc
+    cases c with
+    | line s => exact h1
+    | endl s => exact h1
+    | gap => trivial
   have hgen : NoNL ("// " ++ gen).toList := by
     simp only [String.toList_append]
     intro c hc
@@ -233,7 +264,6 @@ theorem lex_text (gen : String) (t : FileD) (h : SimpleFile gen t) :
   -- the raw items
   unfold lex
   rw [lexAux_eq_lexL _ _ _ (by omega), text_toList, lexL_text _ 0 hall, lines_simple gen t h]
-  -- the first two lines
   have hfirst : lexL ("// " ++ gen).toList 0 = [.comment (String.ofList (' ' :: gen.toList)) 0] := by
     have : ("// " ++ gen).toList = '/' :: '/' :: (' ' :: gen.toList) := by
       simp only [String.toList_append]; rfl
@@ -246,32 +276,36 @@ theorem lex_text (gen : String) (t : FileD) (h : SimpleFile gen t) :
   have hblank : lexL "".toList 1 = [] := by
     have : ("".toList : List Char) = [] := by decide
     rw [this, lexL_nil]
-  -- the lines of `restCmds` start with the syntax line
-  have hL1 : ∃ tl, (exec (restCmds t) false).1 = syntaxLine :: tl := by
-    unfold restCmds
-    simp only [List.cons_append, exec]
-    exact ⟨_, rfl⟩
-  obtain ⟨tl, htl⟩ := hL1
-  have hraws : rawLines ((exec (restCmds t) false).1) 2 =
-      .tok (.ident "syntax") 2 :: ([.tok (.sym '=') 2, .tok (.str "\"proto3\"") 2, .tok (.sym ';') 2] ++ rawLines tl 3) := by
-    rw [htl]
-    simp only [rawLines, lexL_syntaxLine, List.cons_append, List.nil_append]
-  have htoks := rawLines_tokens _ 2 htok1
-  rw [hraws] at htoks
-  simp only [rawLines, hfirst, hblank, List.nil_append, List.cons_append, hraws, attach]
-  refine ⟨attributeCm none [(String.ofList (' ' :: gen.toList), 0)] (Grammar.Tok.ident "syntax") 2,
-    lastLineOf (rawLines tl 3) 2 + 1, ?_⟩
-  rw [attach_tokens _ 2 2 (fun r hr => htoks r (by simp [hr]))]
-  simp only [attributeCm_nil]
-  -- the tokens after `syntax` are those of `restCmds` without the first
-  have hdrop : (toksOf (restCmds t) false 2).drop 1 =
-      T (.sym '=') 2 :: T (.str "\"proto3\"") 2 :: T (.sym ';') 2 :: (rawLines tl 3).filterMap toP := by
-    unfold toksOf
-    rw [← rawLines_toP, hraws]
-    simp [toP]
-  rw [hdrop]
-  rfl
-
+  -- the raw items of everything below the generator comment
+  have hrest : rawLines (exec (restCmds t) false).1 2 =
+      rawsC (hdCmds t) false 2 ++ rawsC (elemsCmds 0 t.items true 0 0) true (itemsStart t) := by
+    have := rawsC_append (hdCmds t) (elemsCmds 0 t.items true 0 0) false 2
+    rw [(exec_hdCmds t).1, (exec_hdCmds t).2, ← restCmds_eq] at this
+    exact this
+  -- the header starts with `syntax`
+  obtain ⟨Hd', hHd⟩ : ∃ Hd', hdCmds t = Cmd.line syntaxLine :: Hd' := ⟨_, rfl⟩
+  have hsyn : rawsC (hdCmds t) false 2 =
+      .tok (.ident "syntax") 2 :: ([.tok (.sym '=') 2, .tok (.str "\"proto3\"") 2, .tok (.sym ';') 2] ++ rawsC Hd' false 3) := by
+    rw [hHd, rawsC_line, lexL_syntaxLine]
+    rfl
+  -- the header through `attach`, then the elements
+  obtain ⟨pl1, ll1, hb1, heq1⟩ := attach_piece (hdCmds t) htokH false 2 0 0
+    (rawsC (elemsCmds 0 t.items true 0 0) true (itemsStart t) ++ []) (by omega)
+  rw [(exec_hdCmds t).2] at hb1
+  obtain ⟨pl2, ll2, _, heq2⟩ := bridge_kids t.items hplain hownl 0 true 0 0 true (itemsStart t) pl1 ll1 [] hb1
+  rw [heq2] at heq1
+  have htoksH : toksOf (hdCmds t) false 2 = T (.ident "syntax") 2 :: (toksOf (hdCmds t) false 2).drop 1 := by
+    rw [toksOf_hdCmds]
+    unfold syntaxLine
+    rw [lineToks_syntax]
+    rfl
+  rw [hsyn, htoksH] at heq1
+  simp only [List.cons_append, List.nil_append, List.append_assoc, List.append_nil, attach, attributeCm_nil] at heq1
+  have heq3 := (List.cons.inj heq1).2
+  simp only [rawLines, hfirst, hblank, List.nil_append, List.cons_append, hrest, hsyn, attach, List.append_assoc,
+    List.append_nil, attributeCm_nil]
+  refine ⟨attributeCm none [(String.ofList (' ' :: gen.toList), 0)] (Grammar.Tok.ident "syntax") 2, ll2 + 1, ?_⟩
+  congr 1
 
 /-! ## the theorem -/
 
@@ -294,13 +328,13 @@ theorem parse_print (gen : String) (t : FileD) (h : SimpleFile gen t) :
   have hI : ∀ i ∈ sortImports t.imports, PlainBody i.1.toList ∧ (i.2 = "" ∨ i.2 = "public " ∨ i.2 = "weak ") :=
     fun i hi => h.imports i (sortImports_mem t i hi)
   -- the tokens
-  have hX := toksOf_restCmds t
+  have hX := toksOf_hdCmds t
   have hsyn : lineToks syntaxLine 2 =
       [T (.ident "syntax") 2, T (.sym '=') 2, T (.str "\"proto3\"") 2, T (.sym ';') 2] := lineToks_syntax 2
   have hpk : lineToks (packageLine t) 4 = T (.ident "package") 4 :: (tyToks false first rest 4 ++ [T (.sym ';') 4]) := by
     unfold packageLine; rw [hpkg]; exact lineToks_package first rest 4 hf hr
   rw [hsyn, hpk] at hX
-  have hdrop : (toksOf (restCmds t) false 2).drop 1 ++ [T .eof N] =
+  have hdrop : (toksOf (hdCmds t) false 2).drop 1 ++ (kT 0 t.items true 0 0 true (itemsStart t) ++ [T .eof N]) =
       T (.sym '=') 2 :: T (.str "\"proto3\"") 2 :: T (.sym ';') 2 ::
         (T (.ident "package") 4 :: (tyToks false first rest 4 ++ T (.sym ';') 4 ::
           (lexLines ((sortImports t.imports).map importLine) 6 ++
@@ -334,6 +368,6 @@ theorem parse_print (gen : String) (t : FileD) (h : SimpleFile gen t) :
 /-- … and printing what was read reproduces the text. -/
 theorem reprint_simple (gen : String) (t : FileD) (h : SimpleFile gen t) :
     printFile gen (rdFile t) = run (fileCmds gen t) false :=
-  printFile_relaid gen t (rdFile t) (simple_quiet gen t h) (relaid_rdFile gen t h)
+  printFile_relaidL gen t (rdFile t) (simple_quiet gen t h) (relaid_rdFile gen t h)
 
 end J5V.Print.Reparse
